@@ -79,10 +79,12 @@ def n_edges(graph):
     return sum(len(e) for e in graph["edges"])
 
 
-def explore_paths(fresh, *, actions, apply, project, max_depth, max_nodes=200000):
+def explore_paths(fresh, *, actions, apply, project, max_depth, max_nodes=200000, observe_along=True):
     """Like explore(), but without cloning: the object of a node is rebuilt by re-executing the node's
     event path on a fresh object (needed when the property is about aliasing, which a deep copy would
-    hide).  `apply` returns the observed result dict; results are recorded on the edges."""
+    hide).  `apply` returns the observed result dict; results are recorded on the edges.  With
+    observe_along the projection (= all public lookups) is also taken after every re-executed event, so
+    that query-mutate-query sequences are part of every explored history."""
     o0 = fresh()
     p0 = project(o0)
     index = {json.dumps(p0, sort_keys=True): 1}
@@ -108,6 +110,10 @@ def explore_paths(fresh, *, actions, apply, project, max_depth, max_nodes=200000
             o = fresh()
             for e in path:
                 apply(o, e)
+                if observe_along:
+                    # the lookups of the projection are part of the history: a cache filled by a lookup and
+                    # not invalidated by the next mutation must show
+                    project(o)
             res = apply(o, act) or {}
             p2 = project(o)
             k2 = json.dumps(p2, sort_keys=True)
